@@ -22,6 +22,7 @@ REQUIRED = ["solve_goals_reachable_partial", "solve_goals_reachable_fresh", "sol
             "remove_finished_goals_iff", "spec_iff_expl", "solve_iff_expl_partial",
             "solve_iff_expl", "solve_subset", "expl_subset_closed",
             "find_node_backwards_sound", "find_node_backwards_iff", "remove_finished_goals_sound", "built_graph_wf",
+            "built_graph_ids_ok", "solve_iff_expl_built", "solve_subset_built",
             "provisional_witness", "solve_goals_reachable_not_full"]
 
 WORKERS = 14
